@@ -447,7 +447,34 @@ func TestC28_NoRequestCrashesTheNode(t *testing.T) {
 		c.collectLive()
 		nreq := rapid.IntRange(8, 40).Draw(t, "nreq")
 		var log []string
+		blockDone := false
 		for k := 0; k < nreq; k++ {
+			// node-side events between requests, as the daemon produces them: a block arrives that turns a pooled
+			// transaction into a double spend, the periodic refresh and invalid-removal passes run
+			switch rapid.IntRange(0, 11).Draw(t, "event") {
+			case 0:
+				if !blockDone {
+					if err := n.v.ExecuteSignedBlock(tm.nextBlock); err != nil {
+						t.Fatalf("HARNESS: prepared block rejected: %v", err)
+					}
+					blockDone = true
+					log = append(log, "EVENT block accepted (confirms a competitor of a pooled transaction)")
+					r.Count("event_block")
+				}
+			case 1:
+				if _, err := n.v.RemoveInvalidUnconfirmed(); err != nil {
+					t.Fatalf("RemoveInvalidUnconfirmed: %v", err)
+				}
+				log = append(log, "EVENT invalid-removal pass")
+				if blockDone {
+					r.Count("event_remove_invalid_after_block")
+				}
+			case 2:
+				if _, err := n.v.RefreshUnconfirmed(); err != nil {
+					t.Fatalf("RefreshUnconfirmed: %v", err)
+				}
+				log = append(log, "EVENT refresh pass")
+			}
 			ep := endpoints[rapid.IntRange(0, len(endpoints)-1).Draw(t, "endpoint")]
 			method := ep.method
 			if rapid.IntRange(0, 30).Draw(t, "othermethod") == 0 {
